@@ -692,13 +692,14 @@ example :
   have h2 : d2.Ok := ok d2 rfl rfl rfl rfl rfl rfl rfl rfl
   exact ⟨h1, h2, ⟨trivial, h2, trivial, (show AOp.Valid 3 (.qxx 1 3) from by decide), trivial⟩, by decide⟩
 
-/-- what a leftover means numerically (exact arithmetic): the copy loop overwrites only the STORED elements,
-    so a structural zero of the new rows keeps the old number (here 7 at position (1,2)) -/
+/-- what a leftover means numerically (exact arithmetic): the copy loop touches only the STORED elements (and ADDS
+    to them: `A_dot(k,*i) += *n`), so a structural zero of the new rows keeps the old number (here 7 at position (1,2))
+    and a stored one sits on top of the old number (5 + 3) — which is why `A_dot.set_zero()` precedes the loop -/
 example :
     let p1 : Ls.Problem Rat := { m := 1, n := 2, rows := #[#[(1, 5), (2, 7)]], cov := #[], rhs := #[0], reg := .none }
     let p2 : Ls.Problem Rat := { m := 1, n := 2, rows := #[#[(1, 3)]], cov := #[], rhs := #[0], reg := .none }
-    copyRows (copyRows (zeros 1 2) p1) p2 = #[#[3, 7]] ∧ copyRows (zeros 1 2) p2 = #[#[3, 0]] := by
-  constructor <;> rfl
+    copyRows (copyRows (zeros 1 2) p1) p2 = #[#[8, 7]] ∧ copyRows (zeros 1 2) p2 = #[#[3, 0]] := by
+  constructor <;> decide +kernel
 
 /-! ### `LocalNetwork`: the update cascade -/
 
